@@ -284,6 +284,9 @@ def rule_fmt(ctx):
             return [e.value]
         if isinstance(e, ast.IfExp):
             return fmt_consts(e.body) + fmt_consts(e.orelse)
+        vals = const_values(p, e, bm)      # a format chosen into a local by if/else
+        if vals and all(isinstance(v, str) for v in vals):
+            return list(vals)
         return []
     sfmts = [f_ for c in sf if c.args for f_ in fmt_consts(c.args[0])]
     if len(sfmts) < 2:
@@ -572,7 +575,8 @@ def rule_all(ctx):
     ctx.ob("C07.ALL", st, "stat() parses the single body line (index 1) of the MLST reply", ok, "stat() does not parse info[1] of the MLST reply", construct="stat:line index")
     table, _ = p.command_table()
     ml = p.method("Server", table["mlst"])
-    ok = any(is_reply(c) and len(c.args) >= 3 and isinstance(c.args[1], ast.List) and len(c.args[1].elts) == 3 and isinstance(c.args[2], ast.Constant) and c.args[2].value is True for c in walk_no_nested(ml))
+    ok = any(is_reply(c) and len(c.args) >= 3 and isinstance(expand(p, c.args[1], ml), (ast.List, ast.Tuple)) and len(expand(p, c.args[1], ml).elts) == 3
+             and isinstance(expand(p, c.args[2], ml), ast.Constant) and expand(p, c.args[2], ml).value is True for c in walk_no_nested(ml))
     ctx.ob("C07.ALL", ml, "MLST replies [head, facts-line, tail] in list mode (facts at index 1)", ok, "MLST reply is not a 3-line list-mode reply with the facts in the middle", construct="mlst:reply shape")
 
 
